@@ -4,6 +4,7 @@ iterating a queue in each category) and real MessageDependency objects (inside a
 validated against Trace_MessageApi."""
 from __future__ import annotations
 
+import asyncio
 import itertools
 import random
 from datetime import timedelta
@@ -13,6 +14,8 @@ from harness import tlc, vloop
 
 TERMINAL = ["ack", "nack", "reject", "reschedule", "retry", "force_retry"]
 DEPOPS = TERMINAL + ["set_result", "set_exception", "add_callback"]
+# (inside an actor every operation of the program runs within the actor's own `try: ... except Exception:` in half of the runs:
+#  the eager response ends the body all the same)
 
 
 async def _plain(loop, cat, tried, mx, seq):
@@ -63,7 +66,7 @@ async def _plain(loop, cat, tried, mx, seq):
     return ev
 
 
-async def _dep(loop, tried, mx, res_on, seq):
+async def _dep(loop, tried, mx, res_on, seq, swallow=False):
     from repid import BasicConverter, Connection, InMemoryBucketBroker, InMemoryMessageBroker, MessageDependency, Router, RouterDefaults
     from repid._processor import _Processor
     from repid.data._parameters import Parameters, ResultProperties, RetriesProperties
@@ -106,7 +109,15 @@ async def _dep(loop, tried, mx, res_on, seq):
             if o == "add_callback":
                 ntok += 1
                 tok = f"c{ntok}"
-                m.add_callback(lambda tok=tok: ran.append(tok))
+                if ntok % 2 == 0:
+                    m.add_callback(lambda tok=tok: ran.append(tok))
+                else:
+                    # a callback that suspends before it takes effect: the ones registered after it wait for it
+                    async def acb(tok=tok):
+                        await asyncio.sleep(0)
+                        await asyncio.sleep(0.01)
+                        ran.append(tok)
+                    m.add_callback(acb)
                 ev.append({"e": "cb", "tok": tok})
                 continue
             before = len(calls)
@@ -115,6 +126,14 @@ async def _dep(loop, tried, mx, res_on, seq):
                     m.set_result({"v": 1})
                 elif o == "set_exception":
                     m.set_exception(KeyError("k"))
+                elif swallow:
+                    # the actor's own error handling around the eager action: it catches Exception, the eager response is not one
+                    try:
+                        await getattr(m, o)()
+                    except ValueError:
+                        raise
+                    except Exception:  # noqa: BLE001
+                        pass
                 else:
                     await getattr(m, o)()
                 ev.append({"e": "op", "o": o, "raised": False, "calls": calls[before:]})
@@ -172,6 +191,8 @@ def run(tier: str, seed: int, replay=None) -> int:
                         if tier == "quick" and L == 3 and rng.random() > 0.3:
                             continue
                         jobs.append(("dep", tried, mx, res_on, list(seq)))
+                        if L <= 2:
+                            jobs.append(("dep", tried, mx, res_on, list(seq), True))
         if tier == "quick":
             # the length-4 programs that interleave result setting and callback registration before one eager action
             for pre in itertools.product(["set_result", "set_exception", "add_callback"], repeat=3):
